@@ -90,7 +90,7 @@ def problem_header(c, with_dfa=True, hints=False):
     return lines
 
 
-def dfa_header(c):
+def dfa_header(c, prios=None):
     """Problem-file records for a DFA-only capture (subpatterns): DFA, dead-set and UTF-8 product hints."""
     d = c.dfa
     lines = ['D %d' % d['start']]
@@ -103,7 +103,7 @@ def dfa_header(c):
         for lo, hi, t in tr:
             parts += [lo, hi, t]
         lines.append(' '.join(map(str, parts)))
-    lines.append('PR %d %s' % (len(c.leaves), ' '.join(str(l['prio']) for l in c.leaves)))
+    lines.append('PR %d %s' % (len(c.leaves), ' '.join(str(x) for x in (prios if prios is not None else [l['prio'] for l in c.leaves]))))
     dfa = capmod.Dfa(c)
     rank = dfa.live_ranks()
     dead = sorted(set([q for q in list(dfa.states) + [0] if q not in rank]))
